@@ -208,8 +208,8 @@ def run(c):
     else:
         g = json.load(open(gout))
         for x in g["log"]:
-            if "replies" in x:   # WireGuard keepalives (empty payload) are not replies
-                x["replies"] = [rp for rp in x["replies"] if rp.get("len", 1) > 0]
+            if "replies" in x:   # WireGuard keepalives (empty payload) and timer-driven handshake messages are not payloads
+                x["replies"] = [rp for rp in x["replies"] if rp.get("len", 0) > 0]
         steps = {x["step"]: x for x in g["log"]}
         c.cov["gateway_loop"] = [x for x in g["log"] if x["step"].startswith("authorised")]
         ontime = g["authorised_phase_done_at_s"] <= g["life"] - 6
